@@ -1,6 +1,8 @@
 # C10 — template loading: generated directory trees, sequential histories of edits / loads / renders
-# and schedule-exact concurrent histories (yield points of pugjs.VerifHook) against a real Engine;
-# every call's outcome class and every park point judged inside Coq (Run/Judge_C10.v).
+# and schedule-exact concurrent histories (yield points of pugjs.VerifHook, FuncProvider calls inside a
+# running load, probes of calls that must wait) against a real Engine; file edits under several regimes of
+# file identity (size, modification time, inode, renames); every call's outcome class and every park
+# point judged inside Coq (Run/Judge_C10.v).
 import itertools
 from common import *
 
@@ -37,6 +39,10 @@ def cls_of(kind, debug):
     raise ValueError(kind)
 
 
+def dec(h):
+    return unhx(h).decode("utf-8", "surrogateescape")
+
+
 class FS:
     """the directory below basedir as the harness builds it"""
 
@@ -47,7 +53,7 @@ class FS:
         if case is not None:
             self.page = not case["nopage"]
             for f in case["files"]:
-                self.write(unhx(f["p"]).decode("utf-8", "surrogateescape"), f["k"], unhx(f["m"]))
+                self.write(dec(f["p"]), f["k"], unhx(f["m"]))
 
     def copy(self):
         o = FS()
@@ -83,10 +89,35 @@ class FS:
             if x.startswith(PAGE):
                 self.dirs.add(x)
 
+    def can_mv(self, p, q):
+        """rename p to q: a file onto a (new or existing) file path, a directory to a new path"""
+        if p == q or q.startswith(p + "/") or p.startswith(q + "/"):
+            return False
+        if p in self.files:
+            return self.can_write(q)
+        if p in self.dirs and p != PAGE[:-1]:
+            return q.startswith(PAGE) and q not in self.files and q not in self.dirs and self.can_mkdir(q)
+        return False
+
+    def mv(self, p, q):
+        assert self.can_mv(p, q), (p, q)
+        if p in self.files:
+            v = self.files.pop(p)
+            self.write(q, v[0], v[1])
+            return
+        self.mkdir(q)
+        for f in [f for f in self.files if f.startswith(p + "/")]:
+            self.files[q + f[len(p):]] = self.files.pop(f)
+        for d in [d for d in self.dirs if d == p or d.startswith(p + "/")]:
+            self.dirs.discard(d)
+            self.dirs.add(q + d[len(p):])
+
     def apply(self, e):
-        p = unhx(e["p"]).decode("utf-8", "surrogateescape") if e.get("p") else None
+        p = dec(e["p"]) if e.get("p") else None
         if e["a"] == "write":
             self.write(p, e["k"], unhx(e["m"]))
+        elif e["a"] == "mv":
+            self.mv(p, dec(e["q"]))
         elif e["a"] == "rm":
             del self.files[p]
         elif e["a"] == "mkdir":
@@ -108,6 +139,12 @@ class FS:
             if p.startswith(PAGE) and p.endswith(SUFFIX):
                 res[p[len(PAGE):-len(SUFFIX)]] = k
         return res
+
+    def selected(self, flt):
+        """number of template files a load with this filter compiles (= FuncProvider calls if all compile)"""
+        if not self.page:
+            return 0
+        return sum(1 for n in self.templates() if n.startswith(flt))
 
     def compile_class(self, flt, debug):
         """ok | fail for a load with this filter (which failure class depends on Readdir order)"""
@@ -147,17 +184,22 @@ class FS:
 
 
 class Mirror:
-    """The machine of Models/Loader.v, used only to generate schedules whose steps are enabled
-    (it is not trusted: the judge recomputes everything in Coq)."""
+    """The machine of Models/Loader.v with the judge's bookkeeping of calls in flight, used only to
+    generate schedules the model answers for (it is not trusted: the judge recomputes everything in Coq)."""
 
     def __init__(self, debug, ops, fs):
         self.debug, self.ops, self.fs = debug, ops, fs
         self.loaded, self.lock = False, None
         self.pc = ["start"] * len(ops)
+        self.prog = 0          # FuncProvider calls made by the load in progress
+        self.fl = []           # calls in flight: released, blocked on the lock
+        self.multi = False
+        self.freeze = False    # no edits until the lock is released (several calls wait for this load)
 
     def copy(self):
         m = Mirror(self.debug, self.ops, self.fs.copy())
         m.loaded, m.lock, m.pc = self.loaded, self.lock, list(self.pc)
+        m.prog, m.fl, m.multi, m.freeze = self.prog, list(self.fl), self.multi, self.freeze
         return m
 
     def flt(self, i):
@@ -178,10 +220,23 @@ class Mirror:
         if self.loaded and f == "":
             self.pc[i] = "done"
         else:
-            self.loaded, self.lock, self.pc[i] = True, i, "locked"
+            self.loaded, self.lock, self.pc[i], self.prog = True, i, "locked", 0
+
+    def _finish(self, i):
+        self.lock, self.prog, self.freeze = None, 0, False
+        if self.fs.compile_class(self.flt(i), self.debug) == "ok":
+            self.pc[i] = "afterload" if self.ops[i][0] == "render" else "done"
+        else:
+            self.loaded = False
+            self.pc[i] = "done"
 
     def step(self, i):
         assert self.enabled(i)
+        assert not (self.fl and self.lock is None and i not in self.fl)
+        if i in self.fl:
+            self.fl.remove(i)
+            if not self.fl:
+                self.multi = False
         pc, (o, n) = self.pc[i], self.ops[i]
         if pc == "start":
             if o == "render" and not self.debug:
@@ -194,14 +249,57 @@ class Mirror:
             else:
                 self._enter(i, "")
         elif pc == "locked":
-            self.lock = None
-            if self.fs.compile_class(self.flt(i), self.debug) == "ok":
-                self.pc[i] = "afterload" if o == "render" else "done"
-            else:
-                self.loaded = False
-                self.pc[i] = "done"
+            self._finish(i)
         elif pc == "afterload":
             self.pc[i] = "done"
+
+    # ---- inside a load: from one compiled file to the next
+    def load_good(self, i):
+        return self.fs.compile_class(self.flt(i), self.debug) == "ok"
+
+    def can_compile(self, i):
+        """the outcome does not depend on the Readdir order: nothing compiled yet, or every selected file compiles"""
+        return self.pc[i] == "locked" and not self.fl_racing() and (self.prog == 0 or self.load_good(i))
+
+    def compile_parks(self, i):
+        return self.prog < self.fs.selected(self.flt(i))
+
+    def compile(self, i):
+        assert self.can_compile(i)
+        if self.compile_parks(i):
+            self.prog += 1
+        else:
+            self._finish(i)
+
+    # ---- calls that must wait
+    def fl_racing(self):
+        return bool(self.fl) and self.lock is None
+
+    def _never_holds(self, i):
+        """its next step cannot end with the lock held, provided the load in progress succeeds"""
+        pc, (o, n) = self.pc[i], self.ops[i]
+        if pc == "afterload" or pc == "check":
+            return True
+        return pc == "start" and self.flt(i) == ""
+
+    def can_probe(self, i):
+        if self.pc[i] == "done" or self.enabled(i) or i in self.fl or self.lock is None:
+            return False
+        if not self.fl:
+            return True
+        # several calls in flight: none of them may be the one that starts the next load
+        return (self.load_good(self.lock) and self._never_holds(i)
+                and all(self._never_holds(j) for j in self.fl))
+
+    def probe(self, i):
+        assert self.can_probe(i)
+        if self.fl:
+            self.multi = True
+            self.freeze = True
+        self.fl.append(i)
+
+    def can_edit(self):
+        return not self.freeze and not self.fl_racing() and not (self.lock is not None and self.prog > 0)
 
 
 def hxs(s):
@@ -212,11 +310,36 @@ def op_json(o):
     return {"o": o[0], "n": hxs(o[1])}
 
 
+PAD = 256   # every template file of a case is padded to this size when the regime keeps sizes
+
+# regimes of file identity under which the harness writes (and rewrites) the files of one case:
+#   z   pad every file to the same size            mt  "" natural | keep (restore the replaced file's mtime) |
+#   v   "" in place (same inode) | rename (new inode)      fixed (one build time stamp for every file)
+REGIMES = {
+    "natural":     {"z": 0,   "mt": "",      "v": ""},
+    "size":        {"z": PAD, "mt": "",      "v": ""},       # same size, writes within one mtime tick happen
+    "size+keep":   {"z": PAD, "mt": "keep",  "v": ""},       # cp -p / rsync -t / touch -r
+    "size+fixed":  {"z": PAD, "mt": "fixed", "v": ""},       # reproducible build artefacts
+    "size+fixed+rename": {"z": PAD, "mt": "fixed", "v": "rename"},   # ... deployed by atomic replace
+    "fixed":       {"z": 0,   "mt": "fixed", "v": ""},
+    "rename":      {"z": 0,   "mt": "",      "v": "rename"},
+    "mixed":       None,                                      # every write draws its own
+}
+STAT_REGIMES = [r for r in REGIMES if r.startswith("size")] + ["mixed"]
+
+
+def pick_regime(rng, stat=False):
+    if stat:
+        return rng.choice(STAT_REGIMES)
+    return rng.choice(["natural"] * 5 + list(REGIMES))
+
+
 class Builder:
     """builds one case: initial files, ops, schedule; keeps the mirror in step"""
 
-    def __init__(self, rng, debug):
+    def __init__(self, rng, debug, regime="natural"):
         self.rng, self.debug = rng, debug
+        self.regime = regime
         self.fs = FS()
         self.counter = 0
         self.init_files = []
@@ -225,15 +348,37 @@ class Builder:
         self.sched = []
         self.mirror = None
 
+    def clone_of(self, b0):
+        """a fresh builder that continues b0 (shared prefix of an enumeration)"""
+        self.regime = b0.regime
+        self.fs, self.init_files, self.counter = b0.fs.copy(), list(b0.init_files), b0.counter
+        self.nopage = b0.nopage
+        self.ops, self.sched = list(b0.ops), list(b0.sched)
+        if b0.mirror is not None:
+            self.mirror = b0.mirror.copy()
+            self.mirror.fs = self.fs
+        return self
+
     def marker(self, name):
         self.counter += 1
-        return ("%s#%d" % (name, self.counter)).encode("utf-8", "surrogateescape")
+        return ("%s#%03d" % (name, self.counter)).encode("utf-8", "surrogateescape")
+
+    def stat(self):
+        r = REGIMES[self.regime]
+        if r is None:
+            r = {"z": self.rng.choice([0, PAD, PAD]), "mt": self.rng.choice(["", "keep", "fixed", "fixed"]),
+                 "v": self.rng.choice(["", "", "rename"])}
+        return {k: v for k, v in r.items() if v}
 
     def add_initial(self, path, kind, marker=b""):
         if not self.fs.can_write(path):
             return False
         self.fs.write(path, kind, marker)
-        self.init_files.append({"p": hxs(path), "k": kind, "m": hx(marker)})
+        st = self.stat()
+        st.pop("v", None)
+        if st.get("mt") == "keep":
+            st.pop("mt")
+        self.init_files.append(dict({"p": hxs(path), "k": kind, "m": hx(marker)}, **st))
         return True
 
     def add_template(self, name, kind="tpl"):
@@ -243,41 +388,133 @@ class Builder:
         self.ops = list(ops)
         self.mirror = Mirror(self.debug, self.ops, self.fs)
 
+    # ---- events
+    def _drain(self):
+        """calls in flight go on by themselves once the lock is free: their steps come next"""
+        m = self.mirror
+        while m.fl_racing():
+            i = m.fl[0]
+            m.step(i)
+            self.sched.append({"t": i})
+
     def step(self, i):
         self.mirror.step(i)
         self.sched.append({"t": i})
+        self._drain()
+
+    def compile(self, i):
+        self.mirror.compile(i)
+        self.sched.append({"c": i})
+        self._drain()
+
+    def probe(self, i):
+        self.mirror.probe(i)
+        self.sched.append({"t": i, "b": True})
 
     def run_to_end(self, i):
         while self.mirror.pc[i] != "done":
             self.step(i)
 
     def edit(self, eds):
+        if not eds or not self.mirror.can_edit():
+            return False
         for e in eds:
             self.fs.apply(e)
         self.sched.append({"e": eds})
+        return True
+
+    def moves(self, tids, compile_steps=True, probes=True):
+        """what the schedule can do next with these calls"""
+        m = self.mirror
+        res = []
+        for i in tids:
+            if m.pc[i] == "done" or i in m.fl:
+                continue
+            if m.enabled(i):
+                res.append(("t", i))
+                if compile_steps and m.can_compile(i):
+                    res.append(("c", i))
+            elif probes and m.can_probe(i):
+                res.append(("b", i))
+        return res
+
+    def do(self, mv):
+        k, i = mv
+        if k == "t":
+            self.step(i)
+        elif k == "c":
+            self.compile(i)
+        else:
+            self.probe(i)
+
+    def finish_all(self, tids, rng=None):
+        """run every started or unstarted call of tids to its end (lock holder first)"""
+        m = self.mirror
+        while True:
+            mv = [x for x in self.moves(tids, compile_steps=False, probes=False)]
+            if not mv:
+                break
+            hold = [x for x in mv if x[1] == m.lock]
+            self.do(hold[0] if hold else (rng.choice(mv) if rng else mv[0]))
 
     # ---- edit proposals on the current tree
-    def ed_write(self, name, kind):
+    def ed_write(self, name, kind, keep_stat=False):
         p = PAGE + name + SUFFIX
         if not self.fs.can_write(p):
             return None
-        return {"a": "write", "p": hxs(p), "k": kind, "m": hx(self.marker(name) if kind == "tpl" else b"")}
+        st = self.stat()
+        if keep_stat:   # whatever the regime: same size, same modification time
+            st = {"z": PAD, "mt": "keep" if st.get("mt") != "fixed" else "fixed"}
+        return dict({"a": "write", "p": hxs(p), "k": kind, "m": hx(self.marker(name) if kind == "tpl" else b"")}, **st)
 
-    def random_edit(self):
+    def ed_mv(self):
+        """rename a template file onto another template name (existing or new), swap two, or rename a directory"""
+        rng, fs = self.rng, self.fs
+        tps = sorted(fs.templates())
+        x = rng.random()
+        if len(tps) >= 2 and x < 0.35:          # swap two templates through a temporary name outside the page dir
+            a, b = rng.sample(tps, 2)
+            pa, pb, tmp = PAGE + a + SUFFIX, PAGE + b + SUFFIX, "swap.tmp"
+            if fs.can_write(tmp):
+                return [{"a": "mv", "p": hxs(pa), "q": hxs(tmp)}, {"a": "mv", "p": hxs(pb), "q": hxs(pa)},
+                        {"a": "mv", "p": hxs(tmp), "q": hxs(pb)}]
+        if tps and x < 0.8:                     # one template file takes the place of another / gets a new name
+            a = rng.choice(tps)
+            b = rng.choice(tps + NAMES)
+            pa, pb = PAGE + a + SUFFIX, PAGE + b + SUFFIX
+            if fs.can_mv(pa, pb):
+                return [{"a": "mv", "p": hxs(pa), "q": hxs(pb)}]
+            return []
+        dirs = sorted(d for d in fs.dirs if d != PAGE[:-1])
+        if dirs:
+            d = rng.choice(dirs)
+            q = PAGE + rng.choice(["e", "a", "c/f", "a.partial", "g.ast.json", "b", "moved/x"])
+            if fs.can_mv(d, q):
+                return [{"a": "mv", "p": hxs(d), "q": hxs(q)}]
+        return []
+
+    def random_edit(self, stat=False):
+        """stat: only edits that a size / mtime / inode comparison is likely to miss"""
         rng = self.rng
         tps = self.fs.templates()
         bad = [n for n, k in tps.items() if k != "tpl"]
         x = rng.random()
+        if stat:
+            if x < 0.2:
+                return self.ed_mv()
+            x = x * 0.7 if tps else 1.0
         if bad and x < 0.35:                      # repair
-            e = self.ed_write(rng.choice(bad), "tpl")
+            e = self.ed_write(rng.choice(bad), "tpl", stat)
         elif tps and x < 0.55:                    # change content
-            e = self.ed_write(rng.choice(sorted(tps)), "tpl")
+            e = self.ed_write(rng.choice(sorted(tps)), "tpl", stat)
         elif tps and x < 0.70:                    # break
-            e = self.ed_write(rng.choice(sorted(tps)), rng.choice(BAD_ERR + BAD_PANIC + ["mixin"]))
-        elif x < 0.82:                            # new template (maybe broken)
+            e = self.ed_write(rng.choice(sorted(tps)), rng.choice(BAD_ERR + BAD_PANIC + ["mixin"]), stat)
+        elif x < 0.80:                            # new template (maybe broken)
             e = self.ed_write(rng.choice(NAMES), "tpl" if rng.random() < 0.8 else rng.choice(BAD_ERR + BAD_PANIC))
-        elif tps and x < 0.90:                    # remove
+        elif tps and x < 0.87:                    # remove
             e = {"a": "rm", "p": hxs(PAGE + rng.choice(sorted(tps)) + SUFFIX)}
+        elif x < 0.91:
+            return self.ed_mv()
         elif x < 0.93:
             e = {"a": "rmpage"}
         elif x < 0.95:
@@ -292,14 +529,14 @@ class Builder:
 
     def case(self, tag):
         return {"debug": self.debug, "nopage": self.nopage, "files": self.init_files,
-                "ops": [op_json(o) for o in self.ops], "sched": self.sched, "tag": tag}
+                "ops": [op_json(o) for o in self.ops], "sched": self.sched, "tag": tag, "regime": self.regime}
 
 
-def base_tree(b, rng, scenario):
+def base_tree(b, rng, scenario, small=False):
     """scenario: good | err | panic | preerr | prepanic | mixed"""
     for n in ["a", "ab", "a/b", "b", "a.partial/x", "c/d/e"]:
         b.add_template(n)
-    for n in rng.sample(NAMES, rng.randint(0, 4)):
+    for n in rng.sample(NAMES, rng.randint(0, 1 if small else 4)):
         b.add_template(n)
     for p in rng.sample(NON_TEMPLATES, rng.randint(0, 3)):
         b.add_initial(PAGE + p, "other", b"not a template")
@@ -360,7 +597,7 @@ def enumerated(rng, tier):
                 for variant in ("plain", "edit", "warm"):
                     if tier == "quick" and variant == "warm" and sc != "good":
                         continue
-                    b0 = Builder(rng, debug)
+                    b0 = Builder(rng, debug, pick_regime(rng, stat=(variant == "edit" and rng.random() < 0.5)))
                     base_tree(b0, rng, sc)
                     ops = list(pair)
                     tids = [0, 1]
@@ -373,17 +610,13 @@ def enumerated(rng, tier):
                     if variant == "edit" and tier == "quick":
                         scheds = rng.sample(scheds, min(len(scheds), 4))
                     for sch in scheds:
-                        b = Builder(rng, debug)
-                        b.fs, b.init_files, b.counter = b0.fs.copy(), list(b0.init_files), b0.counter
-                        b.ops, b.sched = list(b0.ops), list(b0.sched)
-                        b.mirror = b0.mirror.copy()
-                        b.mirror.fs = b.fs
+                        b = Builder(rng, debug).clone_of(b0)
                         if variant == "edit":
                             # the edit changes what later compiles do: re-plan the rest with the mirror
                             k = rng.randrange(len(sch) + 1)
                             for i in sch[:k]:
                                 b.step(i)
-                            b.edit(b.random_edit())
+                            b.edit(b.random_edit(stat=b.regime in STAT_REGIMES))
                             rest = list(sch[k:])
                             while True:
                                 en = [i for i in tids if b.mirror.enabled(i)]
@@ -409,27 +642,30 @@ def enumerated(rng, tier):
                 b0.start(ops)
                 scheds = all_schedules(b0.mirror, [0, 1, 2], limit=100000)
                 for sch in rng.sample(scheds, min(len(scheds), 700)):
-                    b = Builder(rng, debug)
-                    b.fs, b.init_files, b.counter = b0.fs.copy(), list(b0.init_files), b0.counter
-                    b.ops = list(b0.ops)
-                    b.mirror = b0.mirror.copy()
-                    b.mirror.fs = b.fs
+                    b = Builder(rng, debug).clone_of(b0)
                     for i in sch:
                         b.step(i)
                     cases.append(b.case("enum3-%s-%s" % ("debug" if debug else "prod", sc)))
     return cases
 
 
-def random_history(rng, tier, hostile):
-    debug = rng.random() < 0.5
-    b = Builder(rng, debug)
+def weighted(rng, moves, wc, wb):
+    ws = [1.0 if k == "t" else (wc if k == "c" else wb) for k, _ in moves]
+    return rng.choices(moves, weights=ws)[0]
+
+
+def random_history(rng, tier, hostile, stat=False, inside=False):
+    """stat: file-identity regime and edits a size / mtime / inode comparison is likely to miss, mostly
+    sequential; inside: steps from file to file inside loads and probes of calls that must wait"""
+    debug = rng.random() < (0.75 if stat else 0.5)
+    b = Builder(rng, debug, pick_regime(rng, stat))
     # tree
     r = rng.random()
-    if r < 0.08:
+    if r < 0.08 and not stat:
         b.nopage = True
         b.fs.page = False
     else:
-        for n in rng.sample(NAMES, rng.randint(1, 8)):
+        for n in rng.sample(NAMES, rng.randint(1, 5 if inside else (4 if stat else 8))):
             k = "tpl"
             x = rng.random()
             if x < 0.10:
@@ -439,24 +675,24 @@ def random_history(rng, tier, hostile):
             elif x < 0.21:
                 k = "mixin"
             b.add_template(n, k)
-        for p in rng.sample(NON_TEMPLATES, rng.randint(0, 3)):
+        for p in rng.sample(NON_TEMPLATES, rng.randint(0, 1 if stat else 3)):
             b.add_initial(PAGE + p, "other", b"not a template")
-        for p in rng.sample(OUTSIDE, rng.randint(0, 2)):
+        for p in rng.sample(OUTSIDE, rng.randint(0, 1 if stat else 2)):
             b.add_initial(p, "tpl" if p.endswith(SUFFIX) else "other", b"OUTSIDE" if p.endswith(SUFFIX) else b"{}")
     # calls
-    ncalls = rng.randint(3, 14 if tier == "quick" else 24)
+    ncalls = rng.randint(3, (8 if (inside or stat) else 14) if tier == "quick" else 24)
     ops = []
     for _ in range(ncalls):
         x = rng.random()
         pool = sorted(b.fs.templates()) or ["a"]
-        if x < 0.55:
+        if x < (0.85 if stat else 0.55):
             n = rng.choice(pool)
         elif x < 0.75:
             n = rng.choice(NAMES)
         else:
             n = rng.choice(UNKNOWN)
         y = rng.random()
-        if y < 0.70:
+        if y < (0.85 if stat else 0.70):
             ops.append(("render", n))
         elif y < 0.90 or (not debug and not hostile):
             ops.append(("load", ""))
@@ -465,27 +701,138 @@ def random_history(rng, tier, hostile):
     if hostile and debug and rng.random() < 0.3:
         ops[rng.randrange(len(ops))] = ("render", "")
     b.start(ops)
-    conc = rng.choice([1, 1, 2, 3])
-    nxt, active = 0, []
-    pe = rng.choice([0.0, 0.15, 0.35])
-    while nxt < len(ops) or active:
-        if rng.random() < pe:
-            b.edit(b.random_edit())
+    conc = rng.choice([1, 1, 1, 2] if stat else ([2, 3, 3] if inside else [1, 1, 2, 3]))
+    pe = rng.choice([0.25, 0.4] if stat else [0.0, 0.15, 0.35])
+    wc, wb = (rng.choice([0.5, 1.5, 3.0]), rng.choice([0.5, 2.0])) if inside else (0.0, 0.0)
+    m = b.mirror
+    nxt = 0
+    while True:
+        active = [i for i in range(nxt) if m.pc[i] != "done"]
+        if nxt >= len(ops) and not active:
+            break
+        if rng.random() < pe and b.edit(b.random_edit(stat=stat)):
             continue
-        cands = [i for i in active if b.mirror.enabled(i)]
-        can_start = nxt < len(ops) and len(active) < conc and b.mirror.enabled(nxt)
-        if can_start and (not cands or rng.random() < 0.5):
-            i = nxt
+        window = active + ([nxt] if nxt < len(ops) and len(active) < conc else [])
+        mv = b.moves(window, compile_steps=inside, probes=inside)
+        if not inside:   # as before: a call that would block is not started, the holder runs
+            mv = [x for x in mv if x[0] == "t"] or [("t", m.lock)]
+        k, i = weighted(rng, mv, wc, wb)
+        b.do((k, i))
+        if i == nxt:
             nxt += 1
-            active.append(i)
-        elif cands:
-            i = rng.choice(cands)
-        else:   # only happens when the next call would block on the lock: run the holder
-            i = b.mirror.lock
-        b.step(i)
-        if b.mirror.pc[i] == "done":
-            active.remove(i)
-    return b.case("history-%s-c%d%s" % ("debug" if debug else "prod", conc, "-hostile" if hostile else ""))
+    return b.case("%s-%s-c%d%s" % ("stat" if stat else ("inside" if inside else "history"),
+                                   "debug" if debug else "prod", conc, "-hostile" if hostile else ""))
+
+
+# ---- a load is a long operation: other calls arrive at every moment of it
+LOADERS_PROD = [("load", ""), ("render", "a"), ("render", "zz")]
+LOADERS_DEBUG = [("load", ""), ("render", "a"), ("render", "a/b"), ("load", "a"), ("load", "c/")]
+ARRIVALS_PROD = [("render", "a"), ("render", "ab"), ("render", "zz"), ("load", ""), ("render", "c/d/e")]
+ARRIVALS_DEBUG = [("render", "a"), ("render", "ab"), ("render", "b"), ("load", ""), ("load", "a"), ("render", "zz")]
+
+
+def arrivals(rng, tier):
+    """Stream 3.  One call A is inside a load, parked in the FuncProvider call of its k-th file, for EVERY k from
+    0 (still at load:locked) to the number of files it compiles; then a second call B (and sometimes a third, C)
+    arrives: it takes the steps it can take, is then released once more and must be seen blocked; A goes on file
+    by file (or straight) to the end of its load; the blocked calls go on by themselves."""
+    cases = []
+    for debug, loaders, arr in ((False, LOADERS_PROD, ARRIVALS_PROD), (True, LOADERS_DEBUG, ARRIVALS_DEBUG)):
+        for A in loaders:
+            for sc in ("good", "err", "prepanic") if tier == "quick" else SCENARIOS:
+                b0 = Builder(rng, debug, pick_regime(rng))
+                base_tree(b0, rng, sc, small=True)
+                Bs = rng.sample(arr, 2 if tier == "quick" else len(arr))
+                for B in Bs:
+                    third = rng.choice(arr) if rng.random() < 0.4 else None
+                    ops = [A, B] + ([third] if third else [])
+                    b1 = Builder(rng, debug).clone_of(b0)
+                    b1.start(ops)
+                    # A up to load:locked (a production render needs two steps)
+                    while b1.mirror.pc[0] not in ("locked", "done"):
+                        b1.step(0)
+                    if b1.mirror.pc[0] != "locked":
+                        continue
+                    k = 0
+                    while True:
+                        b = Builder(rng, debug).clone_of(b1)
+                        m = b.mirror
+                        others = list(range(1, len(ops)))
+                        # the others arrive: every step they can take, then the probe
+                        for j in others:
+                            while ("t", j) in b.moves([j], probes=False):
+                                b.step(j)
+                            if m.can_probe(j):
+                                b.probe(j)
+                        # A goes on: file by file, or straight to the end
+                        straight = rng.random() < 0.3
+                        while m.pc[0] == "locked":
+                            if not straight and m.can_compile(0):
+                                b.compile(0)
+                            else:
+                                b.step(0)
+                            if m.pc[0] == "locked" and rng.random() < 0.25:
+                                # somebody who was not blocked yet tries again
+                                for j in others:
+                                    if m.can_probe(j):
+                                        b.probe(j)
+                        b.finish_all(range(len(ops)), rng)
+                        cases.append(b.case("arrive-%s-%s-k%d" % ("debug" if debug else "prod", sc, k)))
+                        # next k: A one file further
+                        if b1.mirror.can_compile(0) and b1.mirror.compile_parks(0):
+                            b1.compile(0)
+                            k += 1
+                        else:
+                            break
+    return cases
+
+
+def midload_edits(rng, tier, n):
+    """Stream 6.  File edits INSIDE a load: call A is parked in the FuncProvider call of one of its files, other
+    calls have arrived and are parked where they got to, and the content of existing template files changes
+    (new content, broken, repaired; any file-identity regime) - the names stay.  The model's load reads the tree
+    at one instant, so these cases are judged by the oracle alone (a weaker one: file by file).  After the
+    edits nothing is taken from the mirror any more: A runs to its end, then every call gets four steps of its
+    own, one call after the other (steps of a call that has returned are no-ops)."""
+    cases = []
+    for _ in range(n):
+        debug = rng.random() < 0.5
+        b = Builder(rng, debug, pick_regime(rng, stat=rng.random() < 0.5))
+        sc = rng.choice(["good", "good", "err", "panic", "mixin"])
+        base_tree(b, rng, sc, small=True)
+        A = rng.choice(LOADERS_DEBUG if debug else LOADERS_PROD)
+        others = rng.sample(ARRIVALS_DEBUG if debug else ARRIVALS_PROD, rng.randint(1, 2))
+        ops = [A] + others
+        b.start(ops)
+        m = b.mirror
+        while m.pc[0] not in ("locked", "done"):
+            b.step(0)
+        if m.pc[0] != "locked" or not m.can_compile(0) or not m.compile_parks(0):
+            continue
+        b.compile(0)
+        while m.can_compile(0) and m.compile_parks(0) and rng.random() < 0.6:
+            b.compile(0)
+        for j in range(1, len(ops)):
+            while ("t", j) in b.moves([j], probes=False) and rng.random() < 0.8:
+                b.step(j)
+        # the edits; between them A may go on to further files as long as every file compiles
+        for _k in range(rng.randint(1, 3)):
+            tps = b.fs.templates()
+            name = rng.choice(sorted(tps))
+            kind = "tpl" if rng.random() < 0.6 else rng.choice(BAD_ERR + BAD_PANIC + ["mixin"])
+            e = b.ed_write(name, kind, keep_stat=rng.random() < 0.5)
+            b.fs.apply(e)
+            b.sched.append({"e": [e]})
+            if m.load_good(0) and m.compile_parks(0) and rng.random() < 0.5:
+                m.prog += 1
+                b.sched.append({"c": 0})
+        b.sched.append({"t": 0})
+        order = list(range(len(ops)))
+        rng.shuffle(order)
+        for j in order:
+            b.sched.extend({"t": j} for _ in range(4))
+        cases.append(b.case("midedit-%s-%s" % ("debug" if debug else "prod", sc)))
+    return cases
 
 
 def kind_stats(case):
@@ -499,7 +846,14 @@ def kind_stats(case):
 CLS = {"ok": None, "loaded": b"GR RLoaded", "not_found": b"GR RNotFound", "load_error": b"GR RLoadErr",
        "load_panic": b"GR RLoadPanic", "again": b"GR RAgain", "stuck": b"GStuckR", "unfinished": b"GUnfinished"}
 PTS = {"check": b"GCheck", "locked": b"GLocked", "afterload": b"GAfterLoad", "done": b"GDone", "stuck": b"GStuck",
-       "noop": b"GNoop", "edit": b"GEdit"}
+       "noop": b"GNoop", "edit": b"GEdit", "compile": b"GCompile", "blocked": b"GBlocked"}
+
+
+def ev_thread(ev):
+    """the thread a schedule event steps (None for an edit event)"""
+    if ev.get("t") is not None:
+        return ev["t"]
+    return ev.get("c")
 
 
 class C10(Prop):
@@ -509,34 +863,64 @@ class C10(Prop):
     prop_module = "Props.C10"
     prop_file = "Props/C10.v"
     coq_targets = ["Props/C10.vo", "Run/Judge_C10.vo"]
-    sizes = {"quick": 500, "thorough": 20000}
+    sizes = {"quick": 700, "thorough": 15000}
     shard = 120
-    design_ref = "DESIGN.md section 6 C10, section 5 (yield points)"
+    design_ref = "DESIGN.md section 6 C10, section 5 (yield points); compile steps, probes and file-identity regimes: gen/c10.py, harness/c10.go headers"
     rule = ("one case = one real Engine (production or debug mode) over a generated directory (template names that are "
             "prefixes of each other, nested directories, .partial folders, a directory named *.ast.json, non-template "
             "files, files outside template/page, broken JSON, template syntax error, malformed JS snippet (panic), "
             "unknown node type (panic), undefined mixin (error in debug mode only), missing page directory) and a "
             "schedule: every Render / LoadTemplates call is a goroutine parked at the yield points of pugjs.VerifHook "
-            "and released one step at a time in the order the case says; file edits (change, break, repair, remove, "
-            "new, rmdir/mkdir of the page directory) happen between steps. Stream 1: EVERY interleaving of two calls "
+            "and released one step at a time in the order the case says; a call inside a load can also be parked in "
+            "Engine.FuncProvider, which compileDir calls before every file it compiles (compile step: from one file "
+            "to the next), so that other calls arrive at ANY moment of a load; a call that must wait for the lock is "
+            "released and observed blocked for 30 ms (probe), stays in flight and is collected right after the step "
+            "that frees the lock. File edits (change, break, repair, remove, new, rename of files and directories, "
+            "swap of two templates, rmdir/mkdir of the page directory) happen between steps, under a per-case regime "
+            "of file identity: natural; every template file padded to one size; padded + the replaced file's "
+            "modification time restored (os.Chtimes); padded + one fixed build time stamp on every file; the same "
+            "written by temp-file + rename (new inode); fixed time stamp only; rename only; drawn per write (about 60% of "
+            "the cases are not 'natural'; markers have a fixed width, so plain rewrites keep the size as well and "
+            "fall within one mtime tick). "
+            "Stream 1: EVERY interleaving of two calls "
             "for 8 production and 11 debug call pairs on seven tree scenarios (all files good; an error file; a panic "
             "file; an error / a panic file sharing a name prefix with the rendered templates; both kinds; an undefined "
             "mixin), plain, with an edit at a random position (4 sampled interleavings, thorough: all), and after a "
-            "warm-up call (thorough adds 700 sampled interleavings of three calls for 4 triples x 3 scenarios). Stream 2: random histories of 3..14 (thorough 24) calls, concurrency 1 (sequential), 2 or "
+            "warm-up call (thorough adds 700 sampled interleavings of three calls for 4 triples x 3 scenarios). "
+            "Stream 2 (60% of n): random histories of 3..14 (thorough 24) calls, concurrency 1 (sequential), 2 or "
             "3, edits with probability 0/0.15/0.35 per step, 20% hostile (filtered explicit loads in production mode, "
-            "render of the empty name). Non-trivial = at least two calls overlapped, or an edit happened, or some call "
-            "failed; distinct by SHA-1 of the case")
+            "render of the empty name). Stream 3 (arrivals): a call A (explicit load, first render, debug render, "
+            "filtered load) is inside its load and parked at file k, for EVERY k from 0 to the number of files it "
+            "compiles; a second and sometimes a third call arrive, take the steps they can take, are probed blocked; "
+            "A goes on file by file (70%) or straight to the end; on 3 (thorough 7) tree scenarios. Stream 4 (20%): "
+            "random histories of 3..8 calls, concurrency 2-3, with compile steps and probes at random (weights "
+            "0.5-3 / 0.5-2 against a plain step). Stream 5 (20%): histories under a size-keeping regime, 75% debug "
+            "mode, mostly sequential, edit probability 0.25/0.4 per step, edits chosen among those a size / mtime / "
+            "inode comparison is likely to miss (same-size rewrite, good <-> broken of the same size and time, "
+            "renames, swaps), 85% of the calls render an existing template. Stream 6 (n/7 cases): content edits of "
+            "existing template files INSIDE a load (A parked at a file, others parked where they got to) - judged "
+            "by the oracle alone (file-by-file windows), counted as unmodelled. Non-trivial = at least two calls "
+            "overlapped, or an edit happened, or some call failed, or a compile step or probe was taken; distinct "
+            "by SHA-1 of the case")
     trusted = [
         "compiling ONE template file (pug AST -> template text -> parse) is abstracted in the model to its outcome class "
         "(ok with the bytes the template prints / error / panic); which file contents fall in which class is observed "
         "by the correspondence runs on five concrete file kinds, not proved (the pipeline itself is C01-C06)",
         "the atomicity of the model's steps rests on sync.RWMutex and sync/atomic behaving as documented; the harness "
-        "observes at which yield point every goroutine parks after every release and the judge compares that trace "
-        "with the model's program counters",
+        "observes at which yield point (or FuncProvider call) every goroutine parks after every release, and that a "
+        "goroutine the model refuses a step neither parks nor returns for 30 ms, and the judge compares that trace "
+        "with the model's program counters; a goroutine that should wait and does not is seen returning (it cannot "
+        "be the other way round: a goroutine waiting for a held lock never returns, so the probe has no false alarm)",
+        "the model's compile step (ECompile) changes only the progress counter: that a load holds the lock and "
+        "publishes nothing until its last file is compiled is what the probes and results observe at every file "
+        "position, not something proved of the Go code; the number of FuncProvider calls of a load (one per selected "
+        "template file, up to the first failing one) is compared with the model's load_calls",
         "Readdir order is unknown to the model: the theorems hold for every order (the tree is a list in any order); "
-        "the judge does not tell the two failure classes apart on trees holding files of both classes",
+        "the judge does not tell the two failure classes apart on trees holding files of both classes, and the "
+        "generator takes compile steps beyond the first only in loads whose selected files all compile",
         "Engine.TemplateCode (source listing kept across loads), Assetrewrites/manifest.json and the webpack probe are "
-        "not modelled",
+        "not modelled; file size, modification time and inode are not in the model at all (the model and the oracle "
+        "read file contents only) - the regimes exist to show that the code does not depend on them either",
     ]
     assumptions = [
         "a file system holds at most one entry per path and path segments are clean (dom_fs: distinct template files "
@@ -544,23 +928,36 @@ class C10(Prop):
         "production mode: explicit LoadTemplates calls with a non-empty filter are outside the domain of the load-once "
         "and cold-start theorems (modelled and compared, but judged off-domain); debug mode: Render of the empty name is "
         "outside the domain (it is a full load and is refused the second time)",
+        "the model's load reads the whole tree at the instant it finishes: a file edit that arrives between the first "
+        "and the last file read of ONE load is not modelled (stream 6 judges such cases by the oracle only: every "
+        "result must be explained, file by file, by some version of the tree current during the call)",
+        "schedules whose outcome depends on which waiting goroutine wins the lock (two or more calls in flight one of "
+        "which would start the next load) are not generated and declined by the judge; several calls wait together "
+        "only for a load that succeeds and when none of them starts another load",
         "a released goroutine that neither parks nor returns within 2 s is reported as stuck (a correct step takes "
-        "microseconds to a few milliseconds); unreadable directory entries and symlinks are not generated (the harness "
-        "runs as root)",
+        "microseconds to a few milliseconds); a goroutine expected to wait is watched for 30 ms (a goroutine that "
+        "wrongly does not wait but needs longer than that to return is missed by that probe, not by the result "
+        "check); unreadable directory entries and symlinks are not generated (the harness runs as root)",
         "error texts are only mapped to the classes again / not_found / load_error; a panic out of the call is its own class",
     ]
     not_yet_proved = []
 
     def generate(self, rng, n, tier):
-        cases = enumerated(rng, tier)
+        cases = enumerated(rng, tier) + arrivals(rng, tier) + midload_edits(rng, tier, n // 7)
         for i in range(n):
-            cases.append(random_history(rng, tier, hostile=(i % 5 == 4)))
+            # streams 2 (60%), 4 (20%), 5 (20%), interleaved so that the judging shards weigh the same
+            if i % 5 == 3:
+                cases.append(random_history(rng, tier, hostile=(i % 35 == 33), stat=True))
+            elif i % 5 == 1:
+                cases.append(random_history(rng, tier, hostile=(i % 35 == 31), inside=True))
+            else:
+                cases.append(random_history(rng, tier, hostile=(i % 5 == 4)))
         return cases
 
     def run(self, binary, cases, tmp, tier):
         # the hook is one global variable per process: cases run one after the other inside a process,
         # several processes side by side
-        k = 6
+        k = 8
         chunks = [cases[i::k] for i in range(k)]
         with ThreadPoolExecutor(max_workers=k) as ex:
             outs = list(ex.map(lambda ch: run_harness(binary, self.engine, ch) if ch else [], chunks))
@@ -579,8 +976,10 @@ class C10(Prop):
         evs = []
         fs0 = fs.tree()
         for ev in case["sched"]:
-            if "t" in ev and ev["t"] is not None:
+            if ev.get("t") is not None:
                 evs.append(b"EStep %d" % ev["t"])
+            elif ev.get("c") is not None:
+                evs.append(b"ECompile %d" % ev["c"])
             else:
                 for e in ev["e"]:
                     fs.apply(e)
@@ -600,7 +999,7 @@ class C10(Prop):
 
     def _overlap(self, case):
         seen, done_at = {}, {}
-        order = [ev["t"] for ev in case["sched"] if ev.get("t") is not None]
+        order = [ev_thread(ev) for ev in case["sched"] if ev_thread(ev) is not None]
         first = {}
         last = {}
         for k, t in enumerate(order):
@@ -611,6 +1010,8 @@ class C10(Prop):
 
     def nontrivial(self, case, obs):
         edits = any(ev.get("e") for ev in case["sched"])
+        if any(ev.get("b") or ev.get("c") is not None for ev in case["sched"]):
+            return True
         failed = any(t["class"] not in ("ok", "loaded") for t in (obs["threads"] or []))
         return edits or failed or self._overlap(case)
 
@@ -620,11 +1021,15 @@ class C10(Prop):
         sched = []
         for ev in case["sched"]:
             if ev.get("t") is not None:
-                sched.append("t%d" % ev["t"])
+                sched.append("t%d%s" % (ev["t"], "?" if ev.get("b") else ""))
+            elif ev.get("c") is not None:
+                sched.append("c%d" % ev["c"])
             else:
-                sched.append("edit(" + ",".join("%s %s%s" % (e["a"], s(e.get("p", "")), (":" + e["k"]) if e.get("k") else "")
-                                                for e in ev["e"]) + ")")
-        return {"mode": "debug" if case["debug"] else "production", "tag": case.get("tag"),
+                sched.append("edit(" + ",".join("%s %s%s%s%s" % (
+                    e["a"], s(e.get("p", "")), (" -> " + s(e["q"])) if e.get("q") else "",
+                    (":" + e["k"]) if e.get("k") else "",
+                    "".join(" %s=%s" % (k, e[k]) for k in ("z", "mt", "v") if e.get(k))) for e in ev["e"]) + ")")
+        return {"mode": "debug" if case["debug"] else "production", "tag": case.get("tag"), "regime": case.get("regime"),
                 "files": sorted("%s:%s" % (s(f["p"]), f["k"]) for f in case["files"]),
                 "calls": ["%s(%s)" % (o["o"], s(o["n"])) for o in case["ops"]],
                 "schedule": sched, "parked_at": obs["steps"],
@@ -636,19 +1041,32 @@ class C10(Prop):
         for i in range(len(ops)):
             ns = []
             for ev in sched:
-                if ev.get("t") is None:
+                t = ev_thread(ev)
+                if t is None:
                     ns.append(ev)
-                elif ev["t"] != i:
-                    ns.append({"t": ev["t"] - (1 if ev["t"] > i else 0)})
+                elif t != i:
+                    ne = dict(ev)
+                    ne["t" if ev.get("t") is not None else "c"] = t - (1 if t > i else 0)
+                    ns.append(ne)
             yield dict(case, ops=ops[:i] + ops[i + 1:], sched=ns)
-        # drop one edit event
+        # drop one edit event / one compile step
         for k, ev in enumerate(sched):
-            if ev.get("t") is None:
+            if ev_thread(ev) is None or ev.get("c") is not None:
                 yield dict(case, sched=sched[:k] + sched[k + 1:])
-        # drop one initial file (only if no later edit touches a path below it)
-        touched = {e.get("p") for ev in sched if ev.get("t") is None for e in ev["e"]}
+        # one call's compile steps replaced by the plain step that ends its load
+        for i in range(len(ops)):
+            ks = [k for k, ev in enumerate(sched) if ev.get("c") == i]
+            if ks:
+                yield dict(case, sched=[({"t": i} if k == ks[-1] else ev) for k, ev in enumerate(sched) if k not in ks[:-1]])
+        # the plain file-identity regime
+        if any(f.get("z") or f.get("mt") for f in case["files"]):
+            yield dict(case, files=[{k: v for k, v in f.items() if k not in ("z", "mt")} for f in case["files"]])
+        # drop one initial file (only if no later edit touches a path on its branch)
+        touched = [dec(e[x]) for ev in sched if ev_thread(ev) is None for e in ev["e"] for x in ("p", "q") if e.get(x)]
+        rmpage = any(e["a"] == "rmpage" for ev in sched if ev_thread(ev) is None for e in ev["e"])
         for k, f in enumerate(case["files"]):
-            if f["p"] not in touched:
+            fp = dec(f["p"])
+            if not rmpage and not any(t == fp or t.startswith(fp + "/") or fp.startswith(t + "/") for t in touched):
                 yield dict(case, files=case["files"][:k] + case["files"][k + 1:])
 
     def model_expr(self):
@@ -658,7 +1076,9 @@ class C10(Prop):
         d = {"production": 0, "debug": 0, "streams": {}, "calls": 0, "renders": 0, "loads_full": 0, "loads_filtered": 0,
              "steps": 0, "edit_events": 0, "overlapping": 0, "sequential": 0, "result_classes": {},
              "park_points": {}, "file_kinds": {}, "page_dir_missing_at_start": 0, "stuck_steps": 0, "late_returns": 0,
-             "goroutines_left_blocked": 0}
+             "goroutines_left_blocked": 0, "regimes": {}, "compile_steps": 0, "probes": 0,
+             "cases_with_compile_steps": 0, "cases_with_probes": 0, "edit_kinds": {}, "writes_keeping_size": 0,
+             "writes_setting_mtime": 0, "writes_by_rename": 0}
         for c, o in zip(cases, obss):
             d["debug" if c["debug"] else "production"] += 1
             tag = (c.get("tag") or "corpus").split("-")[0]
@@ -671,8 +1091,22 @@ class C10(Prop):
                     d["loads_full"] += 1
                 else:
                     d["loads_filtered"] += 1
-            d["edit_events"] += sum(1 for ev in c["sched"] if ev.get("t") is None)
+            d["edit_events"] += sum(1 for ev in c["sched"] if ev_thread(ev) is None)
             d["steps"] += sum(1 for ev in c["sched"] if ev.get("t") is not None)
+            rg = c.get("regime") or "natural"
+            d["regimes"][rg] = d["regimes"].get(rg, 0) + 1
+            nc = sum(1 for ev in c["sched"] if ev.get("c") is not None)
+            nb = sum(1 for ev in c["sched"] if ev.get("b"))
+            d["compile_steps"] += nc
+            d["probes"] += nb
+            d["cases_with_compile_steps"] += bool(nc)
+            d["cases_with_probes"] += bool(nb)
+            for ev in c["sched"]:
+                for e in (ev.get("e") or []):
+                    d["edit_kinds"][e["a"]] = d["edit_kinds"].get(e["a"], 0) + 1
+                    d["writes_keeping_size"] += bool(e.get("z"))
+                    d["writes_setting_mtime"] += bool(e.get("mt"))
+                    d["writes_by_rename"] += bool(e.get("v"))
             if self._overlap(c):
                 d["overlapping"] += 1
             else:
